@@ -299,7 +299,7 @@ theorem pod_write_inv (c : Ctl) (v : Pod) (c' : Ctl) (hstep : stepC c (.pod v) =
     rw [hsl]
     exact hsl'
   have hexc : InvExcept c2 (fun x => x.key ∈ ks) := by
-    refine ⟨?_, ?_, ?_, ?_, ?_, ?_⟩
+    refine ⟨?_, ?_, ?_, ?_, ?_, ?_, by rw [heff.cache]; exact hinv.nodup⟩
     · intro x hx hs hnk
       rw [heff.slices] at hx
       have hfresh := hinv.fresh x hx hs (fun hf => hf)
@@ -419,7 +419,7 @@ theorem pod_delete_inv (c : Ctl) (ns name : String) (c' : Ctl) (hstep : stepC c 
       rw [hsl]
       exact hsl'
     have hexc : InvExcept c2 (fun x => x.key ∈ ks) := by
-      refine ⟨?_, ?_, ?_, ?_, ?_, ?_⟩
+      refine ⟨?_, ?_, ?_, ?_, ?_, ?_, by rw [heff.cache]; exact hinv.nodup⟩
       · intro x hx hs hnk
         rw [heff.slices] at hx
         have hfresh := hinv.fresh x hx hs (fun hf => hf)
@@ -472,7 +472,7 @@ theorem pod_delete_inv (c : Ctl) (ns name : String) (c' : Ctl) (hstep : stepC c 
 theorem nodes_change_inv (c : Ctl) (nodes' : List Node) (hinv : Inv c) (hnc : NoCachedAddr c)
     (hgood : ∀ p ∈ c.pods, localityOf nodes' p = localityOf c.nodes p) :
     Inv { c with nodes := nodes' } := by
-  refine ⟨?_, hinv.noForeign, fun x hx _ => hinv.parked x hx (fun hf => hf), hinv.smapSome, hinv.smapOnly, ?_⟩
+  refine ⟨?_, hinv.noForeign, fun x hx _ => hinv.parked x hx (fun hf => hf), hinv.smapSome, hinv.smapOnly, ?_, hinv.nodup⟩
   · intro x hx hs _
     have hfresh := hinv.fresh x hx hs (fun hf => hf)
     unfold EntryOK at hfresh ⊢
